@@ -13,36 +13,38 @@ import (
 )
 
 type Clause struct {
-	Kind  string // requires ensures panics invariant modifies assume
-	Loop  int    // loop ordinal for invariants (1-based)
-	Props []string
-	Name  string
-	Text  string
-	Expr  ast.Expr // parsed (with ==> rewritten to implies())
-	Line  int
-	Func  string
+	Kind    string // requires ensures panics invariant modifies assume
+	Loop    int    // loop ordinal for invariants (1-based)
+	Props   []string
+	Name    string
+	Text    string
+	Expr    ast.Expr // parsed (with ==> rewritten to implies())
+	Line    int
+	Func    string
+	Trusted bool // postcondition assumed by callers but not proved from the body (listed in evidence)
 }
 
 type FuncContract struct {
-	Key      string // function key as in ssa RelString, e.g. "(Tokens).MakeIndices"
-	Requires []*Clause
-	Ensures  []*Clause
-	Panics   []*Clause // exact panic conditions; absent => must not panic
-	Raises   []*Clause // exact panic conditions that callers may let propagate (fail-closed faults)
-	Invs     []*Clause
-	Modifies []string // ghost vars and heap components the function may change beyond fresh memory
-	Uses     []string // opt-in lemma axioms available to this function's obligations
-	Ghosts   []string // function-local ghost arrays (Array Int Int), existential for callers
-	GhostUpd []*GhostUpd
-	Defines  map[string]*Define
-	NoMerge  bool     // do not merge symbolic states at control-flow joins (enumerate paths)
-	Inline   bool     // no contract: callers execute the body
-	Trusted  bool     // contract assumed, body not verified (must be listed)
+	Key         string // function key as in ssa RelString, e.g. "(Tokens).MakeIndices"
+	Requires    []*Clause
+	Ensures     []*Clause
+	Panics      []*Clause // exact panic conditions; absent => must not panic
+	Raises      []*Clause // exact panic conditions that callers may let propagate (fail-closed faults)
+	Invs        []*Clause
+	Modifies    []string // ghost vars and heap components the function may change beyond fresh memory
+	Uses        []string // opt-in lemma axioms available to this function's obligations
+	Ghosts      []string // function-local ghost arrays (Array Int Int), existential for callers
+	GhostSort   map[string]string
+	GhostUpd    []*GhostUpd
+	Defines     map[string]*Define
+	NoMerge     bool // do not merge symbolic states at control-flow joins (enumerate paths)
+	Inline      bool // no contract: callers execute the body
+	Trusted     bool // contract assumed, body not verified (must be listed)
 	MayPanicRNG bool
-	Pure     bool
-	File     string
-	Line     int
-	Notes    []string
+	Pure        bool
+	File        string
+	Line        int
+	Notes       []string
 }
 
 // GhostUpd: "loop k ghost G[idx] = val", executed when the loop body is entered.
@@ -64,7 +66,8 @@ type ContractSet struct {
 	Order []string
 }
 
-var clauseHead = regexp.MustCompile(`^(requires|ensures|panics|raises|assume)\s*(\[[^\]]*\])?\s*([A-Za-z0-9_\-\.]+)\s*:\s*(.*)$`)
+var clauseHead = regexp.MustCompile(`^(requires|ensures|trusted-ensures|panics|raises|assume)\s*(\[[^\]]*\])?\s*([A-Za-z0-9_\-\.]+)\s*:\s*(.*)$`)
+var ghostSetHead = regexp.MustCompile(`^loop\s+(\d+)\s+ghost\s+([A-Za-z_][A-Za-z0-9_]*)\s*=\s*(.*)$`)
 var ghostUpdHead = regexp.MustCompile(`^loop\s+(\d+)\s+ghost\s+([A-Za-z_][A-Za-z0-9_]*)\[(.*?)\]\s*=\s*(.*)$`)
 var defineHead = regexp.MustCompile(`^define\s+([A-Za-z_][A-Za-z0-9_]*)\(([^)]*)\)\s*=\s*(.*)$`)
 var loopHead = regexp.MustCompile(`^loop\s+(\d+)\s+invariant\s*(\[[^\]]*\])?\s*([A-Za-z0-9_\-\.]+)\s*:\s*(.*)$`)
@@ -130,6 +133,10 @@ func parseContractFile(path string, cs *ContractSet) error {
 				cur.Requires = append(cur.Requires, c)
 			case "ensures":
 				cur.Ensures = append(cur.Ensures, c)
+			case "trusted-ensures":
+				c.Kind = "ensures"
+				c.Trusted = true
+				cur.Ensures = append(cur.Ensures, c)
 			case "panics":
 				cur.Panics = append(cur.Panics, c)
 			case "raises":
@@ -152,6 +159,18 @@ func parseContractFile(path string, cs *ContractSet) error {
 				return fmt.Errorf("%s:%d: %v", path, i+1, err)
 			}
 			cur.GhostUpd = append(cur.GhostUpd, &GhostUpd{Loop: n, Name: m[2], Idx: ie, Val: ve, Line: i + 1})
+			continue
+		}
+		if m := ghostSetHead.FindStringSubmatch(t); m != nil {
+			if err := finish(); err != nil {
+				return err
+			}
+			n, _ := strconv.Atoi(m[1])
+			ve, err := parseContractExpr(m[3])
+			if err != nil {
+				return fmt.Errorf("%s:%d: %v", path, i+1, err)
+			}
+			cur.GhostUpd = append(cur.GhostUpd, &GhostUpd{Loop: n, Name: m[2], Idx: nil, Val: ve, Line: i + 1})
 			continue
 		}
 		if m := defineHead.FindStringSubmatch(t); m != nil {
@@ -178,9 +197,20 @@ func parseContractFile(path string, cs *ContractSet) error {
 			if err := finish(); err != nil {
 				return err
 			}
-			for _, x := range strings.Split(strings.TrimPrefix(t, "ghost "), ",") {
+			decl := strings.TrimSpace(strings.TrimPrefix(t, "ghost "))
+			if cur.GhostSort == nil {
+				cur.GhostSort = map[string]string{}
+			}
+			if k := strings.Index(decl, " ("); k > 0 && !strings.Contains(decl[:k], ",") {
+				// "ghost NAME (Array Int Str)": explicit sort
+				cur.Ghosts = append(cur.Ghosts, decl[:k])
+				cur.GhostSort[decl[:k]] = strings.TrimSpace(decl[k:])
+				continue
+			}
+			for _, x := range strings.Split(decl, ",") {
 				if x = strings.TrimSpace(x); x != "" {
 					cur.Ghosts = append(cur.Ghosts, x)
+					cur.GhostSort[x] = "(Array Int Int)"
 				}
 			}
 			continue
